@@ -62,6 +62,10 @@ class SoftwareEosRepulseManager:
     def stop(self):
         """Stop software repulse."""
         self.machine.switch_controller.remove_switch_handler_by_keys(self._handlers)
+        if self._button_is_active:
+            # a repulse might have enabled the coil and nobody is left to see the button release
+            self._button_is_active = False
+            self.coil.disable()
 
     def _button_active(self, **kwargs):
         del kwargs
